@@ -73,13 +73,22 @@ pub fn boundary_codes(depth: u8) -> Vec<u16> {
 /// Deterministic expansion of (stratum, seed) into `n` code triples at the given depth.
 /// strata: 0 uniform; 1 boundary set; 2 single-axis sweep (consecutive codes along one axis, other
 /// two fixed); 3 mixed (each component independently uniform or boundary); 4 near-neutral chroma;
-/// 5 related neighbours (next triple = previous one with +-1 / +-2^k on one or two planes, or equal)
+/// 5 related neighbours (next triple = previous one with +-1 / +-2^k on one or two planes, or equal);
+/// 6 uniformly tinted: both chroma planes constant (extreme / neutral / near-extreme values chosen by seed % 8),
+/// luma uniform - whole-plane statistics (sums, "is this frame grey" tests) are extreme on such frames
 pub fn expand_codes(depth: u8, stratum: u8, seed: u64, n: usize) -> Vec<[u16; 3]> {
     let mut e = Expand(seed);
     let max = ((1u32 << depth) - 1) as u64;
     let b = boundary_codes(depth);
     let mut out = Vec::with_capacity(n);
-    match stratum % 6 {
+    match stratum % 7 {
+        6 => {
+            let (m, h) = (max as u16, (1u32 << (depth - 1)) as u16);
+            let (u, v) = [(0, 0), (m, m), (0, m), (m, 0), (h, h), (0, h), (1, 1), (m - 1, m - 1)][(seed % 8) as usize];
+            for _ in 0..n {
+                out.push([e.below(max + 1) as u16, u, v]);
+            }
+        }
         0 => {
             for _ in 0..n {
                 out.push([e.below(max + 1) as u16, e.below(max + 1) as u16, e.below(max + 1) as u16]);
@@ -182,3 +191,24 @@ pub const LARGE_SIZES: [(usize, usize); 13] = [
     (131080, 1),
     (3841, 2161),
 ];
+
+/// The real-size frames of a tier: quick = the first eight LARGE_SIZES plus UHD-1 (3840x2160, the size at which
+/// "large frame" paths typically switch on); thorough = all of LARGE_SIZES, UHD-1, DCI 4K and 8K UHD-2.
+pub fn large_sizes(quick: bool) -> Vec<(usize, usize)> {
+    let mut v: Vec<(usize, usize)> = if quick { LARGE_SIZES[..8].to_vec() } else { LARGE_SIZES.to_vec() };
+    v.push((3840, 2160));
+    if !quick {
+        v.push((4096, 2160));
+        v.push((7680, 4320));
+    }
+    v
+}
+
+/// power-of-two frame sizes (textures, test patterns): whole-plane sums wrap around exactly there
+pub fn pow2_sizes(quick: bool) -> Vec<(usize, usize)> {
+    if quick {
+        vec![(512, 256), (2048, 1024)]
+    } else {
+        vec![(512, 256), (1024, 1024), (2048, 1024), (4096, 2048), (8192, 4096)]
+    }
+}
